@@ -10,6 +10,7 @@ mod upgrade;
 mod archive;
 mod files;
 mod crash;
+mod wire;
 use hcommon::parse_cli;
 
 fn main() {
@@ -25,6 +26,7 @@ fn main() {
         "archive" => archive::run(&cli),
         "files" => files::run(&cli),
         "crash" => crash::run(&cli),
+        "wire" => wire::run(&cli),
         "sched" => sync::run_sched(&cli),
         d => {
             eprintln!("unknown domain {d}");
